@@ -159,6 +159,14 @@ struct Store {
 
     /// True when the store was done with `SeqCst` ordering
     seq_cst: bool,
+
+    /// Sequence number of the store (the value of `State::cnt` when it was made).
+    id: u16,
+
+    /// For the store half of a read-modify-write: slot and sequence number of
+    /// the store that was read. The RMW's store immediately follows it in
+    /// modification order.
+    rmw_source: Option<(usize, u16)>,
 }
 
 #[derive(Debug)]
@@ -460,11 +468,23 @@ impl State {
     fn store(
         &mut self,
         threads: &mut thread::Set,
-        mut sync: Synchronize,
+        sync: Synchronize,
         value: u64,
         ordering: Ordering,
     ) {
+        self.store_from(threads, sync, value, ordering, None)
+    }
+
+    fn store_from(
+        &mut self,
+        threads: &mut thread::Set,
+        mut sync: Synchronize,
+        value: u64,
+        ordering: Ordering,
+        rmw_source: Option<(usize, u16)>,
+    ) {
         let index = index(self.cnt);
+        let id = self.cnt;
 
         // Increment the count
         self.cnt += 1;
@@ -486,6 +506,38 @@ impl State {
             }
         }
 
+        // RMW ATOMICITY: the store of a read-modify-write immediately follows
+        // the store it read. Hence a store that is ordered after the source of
+        // an RMW is also ordered after the RMW's own store.
+        loop {
+            let mut changed = false;
+
+            for j in 0..self.stores.len() {
+                let (slot, source_id) = match self.stores[j].rmw_source {
+                    Some(source) if Some(source) != rmw_source => source,
+                    _ => continue,
+                };
+
+                if self.stores[slot].id != source_id {
+                    // The source has been evicted from the history.
+                    continue;
+                }
+
+                let mo = self.stores[j].modification_order;
+
+                if self.stores[slot].modification_order <= modification_order
+                    && !(mo <= modification_order)
+                {
+                    modification_order.join(&mo);
+                    changed = true;
+                }
+            }
+
+            if !changed {
+                break;
+            }
+        }
+
         sync.sync_store(threads, ordering);
 
         let mut first_seen = FirstSeen::new();
@@ -499,6 +551,8 @@ impl State {
             sync,
             first_seen,
             seq_cst: is_seq_cst(ordering),
+            id,
+            rmw_source,
         };
     }
 
@@ -537,7 +591,8 @@ impl State {
                 // the load. This is our (hacky) way to establish a release
                 // sequence.
                 let sync = self.stores[index].sync;
-                self.store(threads, sync, next, success);
+                let source = (index, self.stores[index].id);
+                self.store_from(threads, sync, next, success, Some(source));
 
                 Ok(prev)
             }
@@ -874,6 +929,8 @@ impl Default for Store {
             sync: Synchronize::new(),
             first_seen: FirstSeen::new(),
             seq_cst: false,
+            id: 0,
+            rmw_source: None,
         }
     }
 }
